@@ -428,6 +428,57 @@ async def restart_check(snap, layout, model: Model, inflight, where):
                     errors.append(f'{where}: after one more APPEND uid {su} of {name!r} no longer denotes {sc[:24]!r} (now: '
                                   f'{[x[:24] for x in now.get(su, [])]}): the recovery handed the same uid out twice')
             await ok(b'CLOSE')
+        # ... and when its messages are moved around: every message of every other mailbox is moved into INBOX, then all of
+        # INBOX into the first other mailbox.  Each time the target must hold each message exactly once, the ones it held
+        # under their old uids, the arrivals under uids above everything it ever held (a record left behind by a MOVE that
+        # the kill interrupted must not come back to life when the file returns)
+        if not errors:
+            async def contents(name):
+                if await ok(b'EXAMINE "%s"' % name.encode(), may_refuse=True) is None:
+                    return None
+                r = await ok(b'UID FETCH 1:* (UID BODY.PEEK[])')
+                out = {}
+                for u in (r['untagged'] if r else ()):
+                    mu = re.search(rb'UID (\d+)', u)
+                    mb = re.search(rb'BODY\[\] \{(\d+)\}\r\n', u)
+                    if mu and mb:
+                        out[int(mu.group(1))] = norm(u[mb.end():mb.end() + int(mb.group(1))])
+                await ok(b'CLOSE')
+                return out
+
+            async def move_all(src, dst):
+                before_src, before_dst = await contents(src), await contents(dst)
+                if not before_src or before_dst is None:
+                    return
+                if await ok(b'SELECT "%s"' % src.encode(), may_refuse=True) is None:
+                    return
+                r = await ok(b'MOVE 1:* "%s"' % dst.encode(), may_refuse=True)
+                await ok(b'CLOSE')
+                if r is None:
+                    return
+                after = await contents(dst)
+                if after is None:
+                    return
+                want = sorted(list(before_dst.values()) + list(before_src.values()))
+                if sorted(after.values()) != want:
+                    errors.append(f'{where}: after the restart, MOVE 1:* from {src!r} to {dst!r}: {dst!r} holds '
+                                  f'{sorted((u, c[:12]) for u, c in after.items())}, expected its {len(before_dst)} messages plus the '
+                                  f'{len(before_src)} moved in, each once (a stale UID record came back to life)')
+                    return
+                for u, c in before_dst.items():
+                    if after.get(u) != c:
+                        errors.append(f'{where}: after the restart, MOVE into {dst!r} changed what uid {u} denotes')
+                        return
+                new = [u for u in after if u not in before_dst]
+                if new and before_dst and min(new) <= max(before_dst):
+                    errors.append(f'{where}: after the restart, messages moved into {dst!r} got uids {sorted(new)} not above its '
+                                  f'uids {sorted(before_dst)}')
+            others = sorted(n for n in served if n != 'INBOX' and served[n]['v'] is not None)
+            if 'INBOX' in served:
+                for n in others:
+                    await move_all(n, 'INBOX')
+                if others:
+                    await move_all('INBOX', others[0])
     finally:
         await w.close()
     return errors
